@@ -50,7 +50,7 @@ def s_surface(draw):
     rd = draw(st.one_of(gen.ufloat(0, 44.5), gen.ufloat(0, 44.5), st.sampled_from([0.0, 44.5, 12.0])))
     rb = draw(st.one_of(gen.ufloat(0, 360), gen.ufloat(0, 360), st.sampled_from([0.0, 90.0, 180.0, 270.0])))
     return {"lat0": lat1, "lon0": lon1, "lat1": lat2, "lon1": lon2, "t0": t0, "t1": t1, "rdist": rd, "rbrg": rb,
-            "tc0": draw(st.integers(5, 8)), "tc1": draw(st.integers(5, 8)), "noref": draw(gen.uint(0, 29)) == 0,
+            "tc0": draw(st.integers(5, 8)), "tc1": draw(st.integers(5, 8)), "noref": draw(gen.uint(0, 29)) == 0, "as_datetime": draw(gen.uint(0, 3)) == 0,
             "ctx_bits0": draw(gen.ubits(15)), "ctx_bits1": draw(gen.ubits(15)), "ctx_icao": draw(gen.addresses),
             "df": draw(st.sampled_from([17, 17, 18]))}
 
@@ -75,6 +75,7 @@ def chk_surface(case, note):
     m0 = frames.tohex(frames.df17(case["ctx_icao"], me0, ca=b0 & 7, df=case["df"]), 112)
     m1 = frames.tohex(frames.df17(case["ctx_icao"], me1, ca=b0 & 7, df=case["df"]), 112)
     t0, t1 = case["t0"], case["t1"]
+    T0, T1 = cg.as_time(t0, case.get("as_datetime", False)), cg.as_time(t1, case.get("as_datetime", False))
     if case["noref"]:
         for args in ((m0, m1, t0, t1), (m0, m1, t0, t1, None, 3.0), (m0, m1, t0, t1, 3.0, None)):
             r = call(pms.adsb.position, *args)
@@ -90,7 +91,7 @@ def chk_surface(case, note):
     rl, ro = rc
     cands = [e0] if t0 > t1 else ([e1] if t1 > t0 else [e0, e1])
     for name, fn in (("position", pms.adsb.position), ("surface_position", pms.adsb.surface_position)):
-        r = call(fn, m0, m1, t0, t1, rl, ro)
+        r = call(fn, m0, m1, T0, T1, rl, ro)
         tag = "%s(%s, %s, %r, %r, %r, %r)" % (name, m0, m1, t0, t1, rl, ro)
         if r[0] != "ok":
             return "%s raised %r" % (tag, r[1:])
